@@ -159,38 +159,49 @@ example : InQuantifier ⟨13, 2, 1, 0, .d1 [[true, false, true, true, false, fal
                                            [false, false, false, false, false, false, false, false, true, true, true, true]]⟩ 0xFF 0xAA
     (.packed [[.lit [0xB2], .lit [0xEF]], [.lit [0x00, 0xFF]]]) := by decide
 
-/-! ### 16 and 32 bits per pixel: no offsets, PackBits storage -/
+/-! ### 16 and 32 bits per pixel: all geometries, every valid scan-line PackBits encoding -/
 
-/-- the bytes produced for a 16-bit image: no offsets, every operation inside one byte plane -/
-theorem C06_16bit_packed_bytes (W H : Nat) (rows : List (List (UInt8 × UInt8))) (p1 p2 : UInt8) (opsRows : List (List Op))
-    (hq : InQuantifier ⟨W, H, 0, 0, .d16 rows⟩ p1 p2 (.packed opsRows)) (hst : ∀ ops ∈ opsRows, straddles W 0 ops = false) :
-    bitd2bmp (callOf ⟨W, H, 0, 0, .d16 rows⟩ (serialise ⟨W, H, 0, 0, .d16 rows⟩ p1 p2 (.packed opsRows)))
-      = .ok (hdr16 W H ++ ((lines16 rows).reverse.map (bmpRow16 W)).flatten) := by
+/-- the bytes produced for a 16-bit image under any valid scan-line PackBits encoding (operations may span both byte
+    planes), any registration offsets -/
+theorem C06_16bit_packed_bytes (W H ox oy : Nat) (rows : List (List (UInt8 × UInt8))) (p1 p2 : UInt8) (opsRows : List (List Op))
+    (hq : InQuantifier ⟨W, H, ox, oy, .d16 rows⟩ p1 p2 (.packed opsRows)) :
+    bitd2bmp (callOf ⟨W, H, ox, oy, .d16 rows⟩ (serialise ⟨W, H, ox, oy, .d16 rows⟩ p1 p2 (.packed opsRows)))
+      = .ok (bmp16 W H ox oy rows) := by
   obtain ⟨hwf, hfit, hv, hne⟩ := hq
-  have hne' : (serialise ⟨W, H, 0, 0, .d16 rows⟩ p1 p2 (.packed opsRows)).length ≠ (serialise ⟨W, H, 0, 0, .d16 rows⟩ p1 p2 .raw).length := by
+  have hne' : (serialise ⟨W, H, ox, oy, .d16 rows⟩ p1 p2 (.packed opsRows)).length ≠ (serialise ⟨W, H, ox, oy, .d16 rows⟩ p1 p2 .raw).length := by
     rcases hne with h | h
     · cases h
     · exact h
-  exact bitd2bmp_16_packed W H rows p1 p2 opsRows hwf hfit hv hne' hst
+  exact bitd2bmp_16_packed W H ox oy rows p1 p2 opsRows hwf hfit hv hne'
 
-/-- the bytes produced for a 32-bit image: no offsets, a stream that does not have the length of the decoder's raw test -/
-theorem C06_32bit_packed_bytes (W H : Nat) (rows : List (List Px32)) (p1 p2 : UInt8) (opsRows : List (List Op))
-    (hq : InQuantifier ⟨W, H, 0, 0, .d32 rows⟩ p1 p2 (.packed opsRows))
-    (hne2 : (packed opsRows.flatten).length ≠ 2 * W * H) :
-    bitd2bmp (callOf ⟨W, H, 0, 0, .d32 rows⟩ (serialise ⟨W, H, 0, 0, .d32 rows⟩ p1 p2 (.packed opsRows)))
-      = .ok (hdr24 W H ++ ((lines32 rows).reverse.map (bmpRow24 W)).flatten) := by
+/-- the bytes produced for a 32-bit image under any valid scan-line PackBits encoding, any registration offsets -/
+theorem C06_32bit_packed_bytes (W H ox oy : Nat) (rows : List (List Px32)) (p1 p2 : UInt8) (opsRows : List (List Op))
+    (hq : InQuantifier ⟨W, H, ox, oy, .d32 rows⟩ p1 p2 (.packed opsRows)) :
+    bitd2bmp (callOf ⟨W, H, ox, oy, .d32 rows⟩ (serialise ⟨W, H, ox, oy, .d32 rows⟩ p1 p2 (.packed opsRows)))
+      = .ok (bmp24 W H ox oy rows) := by
   obtain ⟨hwf, hfit, hv, hne⟩ := hq
-  have hne' : (serialise ⟨W, H, 0, 0, .d32 rows⟩ p1 p2 (.packed opsRows)).length ≠ (serialise ⟨W, H, 0, 0, .d32 rows⟩ p1 p2 .raw).length := by
+  have hne' : (serialise ⟨W, H, ox, oy, .d32 rows⟩ p1 p2 (.packed opsRows)).length ≠ (serialise ⟨W, H, ox, oy, .d32 rows⟩ p1 p2 .raw).length := by
     rcases hne with h | h
     · cases h
     · exact h
-  exact bitd2bmp_32_packed W H rows p1 p2 opsRows hwf hfit hv hne' hne2
+  exact bitd2bmp_32_packed W H ox oy rows p1 p2 opsRows hwf hfit hv hne'
 
-/-! ### the property on the supported class (`Spec.supportedB` = complement of the open findings) -/
+/-- F34, the weaker clause that does hold: raw 16/32-bit storage is rejected with an error (NotImplementedError), it is never
+    decoded into a wrong picture -/
+theorem C06_hicolour_raw_rejected (i : Img) (p1 p2 : UInt8) (hq : InQuantifier i p1 p2 .raw) (hd : i.pix.depth = 16 ∨ i.pix.depth = 32) :
+    bitd2bmp (callOf i (serialise i p1 p2 .raw)) = .error .notImpl := by
+  obtain ⟨W, H, ox, oy, pix⟩ := i
+  cases pix with
+  | d1 rows => simp [Pixels.depth] at hd
+  | d8 rows => simp [Pixels.depth] at hd
+  | d16 rows => exact bitd2bmp_16_raw_rejected W H ox oy rows p1 p2 hq.1 hq.2.1
+  | d32 rows => exact bitd2bmp_32_raw_rejected W H ox oy rows p1 p2 hq.1 hq.2.1
 
-/-- C06 (first clause) for every input the decidable predicate `supportedB` accepts:
-    depth 1 and 8: everything; depth 16: no offsets, packed, no operation across the plane boundary;
-    depth 32: no offsets, packed, stream length ≠ 2·w·h -/
+/-! ### the property on the supported class (`Spec.supportedB` = complement of the open finding F34) -/
+
+/-- C06 (first clause) for every input the decidable predicate `supportedB` accepts: depth 1 and 8: raw and packed;
+    depth 16 and 32: packed; every geometry (any canvas size and registration offsets), every valid scan-line
+    segmentation -/
 theorem C06_partial (i : Img) (p1 p2 : UInt8) (e : Enc) (hq : InQuantifier i p1 p2 e) (hs : supportedB i e = true) :
     ReadsBack i p1 p2 e := by
   obtain ⟨W, H, ox, oy, pix⟩ := i
@@ -201,35 +212,25 @@ theorem C06_partial (i : Img) (p1 p2 : UInt8) (e : Enc) (hq : InQuantifier i p1 
     cases e with
     | raw => rw [supportedB_d16_raw] at hs; cases hs
     | packed opsRows =>
-      obtain ⟨hox, hoy, hst⟩ := supportedB_d16_packed W H ox oy rows opsRows hs
-      subst hox hoy
-      obtain ⟨_, _, hrows, hpix⟩ := wf16 W H 0 0 rows hq.1
+      obtain ⟨hox, hoy, hrows, hpix⟩ := wf16 W H ox oy rows hq.1
       have hfit := hq.2.1
       simp only [fitsHeader, decide_eq_true_eq] at hfit
       obtain ⟨hW, hH, _⟩ := fits_bounds W H hfit
-      refine ⟨_, C06_16bit_packed_bytes W H rows p1 p2 opsRows hq (by simpa using hst), ?_⟩
-      have := read_bmp16 W H hW hH rows (by simpa using hrows) (by simpa using hpix)
-      rw [List.append_nil] at this
-      exact this
+      exact ⟨_, C06_16bit_packed_bytes W H ox oy rows p1 p2 opsRows hq, read_bmp16 W H ox oy hox hoy hW hH rows hrows hpix⟩
   | d32 rows =>
     cases e with
     | raw => rw [supportedB_d32_raw] at hs; cases hs
     | packed opsRows =>
-      obtain ⟨hox, hoy, hlen⟩ := supportedB_d32_packed W H ox oy rows opsRows hs
-      subst hox hoy
-      obtain ⟨_, _, hrows, hpix⟩ := wf32 W H 0 0 rows hq.1
+      obtain ⟨hox, hoy, hrows, hpix⟩ := wf32 W H ox oy rows hq.1
       have hfit := hq.2.1
       simp only [fitsHeader, decide_eq_true_eq] at hfit
       obtain ⟨hW, hH, _⟩ := fits_bounds W H hfit
-      refine ⟨_, C06_32bit_packed_bytes W H rows p1 p2 opsRows hq (by simpa using hlen), ?_⟩
-      have := read_bmp24 W H hW hH rows (by simpa using hrows) (by simpa using hpix)
-      rw [List.append_nil] at this
-      exact this
+      exact ⟨_, C06_32bit_packed_bytes W H ox oy rows p1 p2 opsRows hq, read_bmp24 W H ox oy hox hoy hW hH rows hrows hpix⟩
 
-example : InQuantifier ⟨3, 2, 0, 0, .d16 [[(1, 2), (3, 4), (5, 6)], [(7, 7), (7, 7), (7, 8)]]⟩ 0 0
-      (.packed [[.lit [1, 3, 5], .lit [2], .lit [4, 6]], [.run 3 7, .lit [7, 7, 8]]]) ∧
-    supportedB ⟨3, 2, 0, 0, .d16 [[(1, 2), (3, 4), (5, 6)], [(7, 7), (7, 7), (7, 8)]]⟩
-      (.packed [[.lit [1, 3, 5], .lit [2], .lit [4, 6]], [.run 3 7, .lit [7, 7, 8]]]) = true := by decide
+example : InQuantifier ⟨4, 3, 1, 1, .d16 [[(1, 2), (3, 4), (5, 6)], [(7, 7), (7, 7), (7, 8)]]⟩ 0 0
+      (.packed [[.lit [1, 3, 5, 2], .lit [4], .lit [6]], [.run 5 7, .lit [8]]]) ∧
+    supportedB ⟨4, 3, 1, 1, .d16 [[(1, 2), (3, 4), (5, 6)], [(7, 7), (7, 7), (7, 8)]]⟩
+      (.packed [[.lit [1, 3, 5, 2], .lit [4], .lit [6]], [.run 5 7, .lit [8]]]) = true := by decide
 
 /-- C06 (second clause) on the supported class: two encodings of one image give identical BMP bytes, unless one is raw,
     the other packed and the 8-bit geometry is in the F30b class -/
@@ -268,24 +269,14 @@ theorem C06_identity_partial (i : Img) (p1 p2 q1 q2 : UInt8) (e e' : Enc)
     | packed a =>
       cases e' with
       | raw => rw [supportedB_d16_raw] at hs'; cases hs'
-      | packed b =>
-        obtain ⟨hox, hoy, hst⟩ := supportedB_d16_packed W H ox oy rows a hs
-        obtain ⟨_, _, hst'⟩ := supportedB_d16_packed W H ox oy rows b hs'
-        subst hox hoy
-        rw [C06_16bit_packed_bytes W H rows p1 p2 a h (by simpa using hst),
-            C06_16bit_packed_bytes W H rows q1 q2 b h' (by simpa using hst')]
+      | packed b => rw [C06_16bit_packed_bytes W H ox oy rows p1 p2 a h, C06_16bit_packed_bytes W H ox oy rows q1 q2 b h']
   | d32 rows =>
     cases e with
     | raw => rw [supportedB_d32_raw] at hs; cases hs
     | packed a =>
       cases e' with
       | raw => rw [supportedB_d32_raw] at hs'; cases hs'
-      | packed b =>
-        obtain ⟨hox, hoy, hlen⟩ := supportedB_d32_packed W H ox oy rows a hs
-        obtain ⟨_, _, hlen'⟩ := supportedB_d32_packed W H ox oy rows b hs'
-        subst hox hoy
-        rw [C06_32bit_packed_bytes W H rows p1 p2 a h (by simpa using hlen),
-            C06_32bit_packed_bytes W H rows q1 q2 b h' (by simpa using hlen')]
+      | packed b => rw [C06_32bit_packed_bytes W H ox oy rows p1 p2 a h, C06_32bit_packed_bytes W H ox oy rows q1 q2 b h']
 
 /-! ### the excluded classes really fail (each replayed on the real code: corpus/C06/open_*.json) -/
 
@@ -296,38 +287,13 @@ theorem C06_witness_F34 : InQuantifier ⟨1, 1, 0, 0, .d16 [[(1, 2)]]⟩ 0 0 .ra
   rw [w_f34] at h
   cases h
 
-/-- F34: a valid 32-bit PackBits stream of exactly 2·w·h bytes -/
-theorem C06_witness_F34b :
-    InQuantifier ⟨2, 1, 0, 0, .d32 [[(7, 7, 7, 7), (7, 7, 7, 7)]]⟩ 0 0 (.packed [[.run 4 7, .run 4 7]]) ∧
-    ¬ ReadsBack ⟨2, 1, 0, 0, .d32 [[(7, 7, 7, 7), (7, 7, 7, 7)]]⟩ 0 0 (.packed [[.run 4 7, .run 4 7]]) := by
+/-- F34: raw 32-bit storage -/
+theorem C06_witness_F34_32 :
+    InQuantifier ⟨1, 1, 0, 0, .d32 [[(9, 1, 2, 3)]]⟩ 0 0 .raw ∧ ¬ ReadsBack ⟨1, 1, 0, 0, .d32 [[(9, 1, 2, 3)]]⟩ 0 0 .raw := by
   refine ⟨by decide, ?_⟩
   rintro ⟨bmp, h, _⟩
-  rw [w_f34b] at h
+  rw [w_f34_32] at h
   cases h
-
-/-- F90: a literal across the plane boundary of a 16-bit line -/
-theorem C06_witness_F90 : InQuantifier img90 0 0 enc90 ∧ ¬ ReadsBack img90 0 0 enc90 := by
-  refine ⟨by decide, ?_⟩
-  rintro ⟨bmp, h, hr⟩
-  rw [w_f90] at h
-  cases h
-  exact w_f90_read hr
-
-/-- F91: a 16-bit image at a non-zero left offset -/
-theorem C06_witness_F91 : InQuantifier img91 0 0 enc91 ∧ ¬ ReadsBack img91 0 0 enc91 := by
-  refine ⟨by decide, ?_⟩
-  rintro ⟨bmp, h, hr⟩
-  rw [w_f91] at h
-  cases h
-  exact w_f91_read hr
-
-/-- F92: a 32-bit image at a non-zero left offset -/
-theorem C06_witness_F92 : InQuantifier img92 0 0 enc92 ∧ ¬ ReadsBack img92 0 0 enc92 := by
-  refine ⟨by decide, ?_⟩
-  rintro ⟨bmp, h, hr⟩
-  rw [w_f92] at h
-  cases h
-  exact w_f92_read hr
 
 /-- F30b: raw and packed storage of one 8-bit image (canvas width 4, three pixels per line) differ in length -/
 theorem C06_witness_F30b :
